@@ -400,11 +400,17 @@ class _Helper:
         return out
 
 
+PURE_WRAPPERS = {"delayed", "joblib.delayed"}     # wrapper factories: the wrapper they return is as good as a fresh one wherever it is used
+
+
 def _simple(e: ast.expr) -> bool:
     if isinstance(e, (ast.Name, ast.Constant)):
         return True
     if isinstance(e, ast.Attribute):
         return _simple(e.value)
+    if isinstance(e, ast.Call) and not e.keywords and len(e.args) == 1 and _simple(e.args[0]) and isinstance(e.func, (ast.Name, ast.Attribute)) \
+            and (ast.unparse(e.func) in PURE_WRAPPERS):
+        return True
     return False
 
 
@@ -927,7 +933,7 @@ def align_locals(mods: dict[str, Module], inv: dict, log: list[str]) -> None:
             log.append(f"{mod.relpath} {q}: locals renamed back {ren}")
 
 
-PURE_FUNCS = {"len", "type", "str", "int", "float", "bool", "tuple", "range", "abs", "min", "max", "sum", "isinstance", "repr", "round", "sorted", "zip", "enumerate", "list", "dict", "set", "cast"}
+PURE_FUNCS = {"delayed", "len", "type", "str", "int", "float", "bool", "tuple", "range", "abs", "min", "max", "sum", "isinstance", "repr", "round", "sorted", "zip", "enumerate", "list", "dict", "set", "cast"}
 PURE_METHODS = {"copy", "reshape", "astype", "sum", "mean", "min", "max", "argmin", "argmax", "argsort", "tolist", "item", "transpose", "flatten", "squeeze", "get", "keys", "values", "items",
                 "index", "count", "startswith", "endswith", "format", "join", "strip", "split", "all", "any", "std", "var", "dot", "round", "clip", "nonzero", "view", "with_suffix", "exists"}
 IMPURE_NUMPY = {"put", "copyto", "place", "putmask", "fill", "shuffle", "seed", "save", "savetxt", "load"}
